@@ -38,6 +38,26 @@ Definition go_int_text (base : N) (mincol : nat) (pad comma : text) (commaint : 
   let out := if colon then go_group out comma commaint else out in
   (if Nat.ltb (List.length out) mincol then repeat_text pad (mincol - List.length out) else []) ++ out.
 
+(* ---- the integer argument of dirR as Go holds it (control.go:1260) ------------------------------------ *)
+(* An integer argument is a slip.Fixnum (an int64) when it lies in -2^63 .. 2^63-1 and a *slip.Bignum otherwise.
+   dirR renders the decimal digits from the representation, sign included,
+     switch ta := arg.(type) { case slip.Fixnum: digits = strconv.AppendInt(nil, int64(ta), 10)
+                               case *slip.Bignum: digits = big.Int(ta).Append(nil, 10) }
+   and both renderers (Roman: the test digits[0] == '-'; English: the '-' stripped from the text) take the sign off
+   the TEXT. int64 arithmetic is arithmetic modulo 2^64 on -2^63 .. 2^63-1 (wrap64): the magnitude of the most
+   negative fixnum is not an int64, which is why the sign cannot be taken off the VALUE of a fixnum. *)
+Definition wrap64 (z : Z) : Z := ((z + two63) mod (2 * two63) - two63)%Z.
+Inductive go_integer :=
+| GoFixnum (n : Z)      (* slip.Fixnum: n is an int64 *)
+| GoBignum (b : Z).     (* *slip.Bignum *)
+Definition go_repr (z : Z) : go_integer := if is_fixnum z then GoFixnum (wrap64 z) else GoBignum z.
+(* strconv.AppendInt(nil, n, 10) / big.Int.Append(nil, 10): '-' and the digits of the magnitude (trusted base) *)
+Definition go_radix_digits (z : Z) : text :=
+  match go_repr z with
+  | GoFixnum n => dec_text n
+  | GoBignum b => dec_text b
+  end.
+
 (* ---- dirR (control.go:1154): Roman numerals ---------------------------------------------------- *)
 (* rdigits: the decimal digits from the last to the first, as  for i := len-1; 0 <= i; i--  visits them *)
 Fixpoint go_roman_loop (table : list (list text)) (rdigits : text) (r : nat) : list text :=
